@@ -35,6 +35,7 @@ TrNoop == /\ l <= NLog /\ Ev.e \in {"Admin", "Committed"} /\ l' = l + 1
 \* a state record was written (hook inside the persist state update)
 TrPersist == /\ IsEvent("Persist")
              /\ Ev.agree = 1                                  \* all indexes + counts agree in the saved state
+             /\ Ev.disk = Ev.dig                              \* the record just written reads back as that state
              /\ durable # <<>> => /\ Ev.off > durable[Len(durable)].off
                                   /\ Ev.t >= durable[Len(durable)].t
              /\ durable' = Append(durable, [off |-> Ev.off, t |-> Ev.t, dig |-> Ev.dig])
